@@ -13,15 +13,23 @@ Obligations, for all rows/arguments, on the real effective SQL and the real Pyth
    the non-terminal parents / the succeeded parents; n' = #non-terminal parents; state' = Ready iff that is 0 else Pending;
    cancelled' = 1 iff some terminal parent did not succeed, else unchanged.
  * _create_jobs (Python): a job starts Ready only in the first update and without parents, n_pending_parents = number of
-   parents, one job_parents row per parent (fragment contracts, contracts/create_jobs_frag.py).
-The cancelled-and-not-always-run => never runs clause is C07 (guards on is_job_cancelled).
+   parents, one job_parents row per parent - ONE fragment from the counter record to the job_parents loop (wave 4; the two
+   fragments of contracts/create_jobs_frag.py could not see a value computed between them), the stored row is what is judged.
+ * which jobs are the parents (wave 4): validate.handle_job_backwards_compatibility maps the legacy `parent_ids` key to
+   `absolute_parent_ids` and never touches `in_update_parent_ids` (whole function, all dict shapes); every job of a bunch
+   passes through it; _create_jobs reads the two keys by name and parent_ids = absolute ids + shifted in-update ids.
+ * the canceller (wave 4, contracts/canceller_sel.py): the three selection generators of driver/canceller.py are executed on
+   the real AST, their embedded SQL bound row-wise by sqlvc: a yielded (= cancelled) job is in the loop's state, NEVER
+   always-run, and marked (cancelled flag or cancelled group/ancestor); the job completed as Cancelled is the job selected.
+ * first reads of mark_job_complete / commit_batch_update take row locks (backs the atomicity assumption).
+The scheduler-side guard (a cancelled, not always-run job is not started) is C07 (guards on is_job_cancelled).
 """
 from __future__ import annotations
 
 import z3
 
-from contracts import create_jobs_frag, sqlspec as SP
-from vc import core, sqlvc
+from contracts import canceller_sel, create_jobs_frag, sqlspec as SP
+from vc import core, pyvc, sqlvc
 from vc.sqlvc import intern
 
 NONTERMINAL = ['Pending', 'Ready', 'Creating', 'Running']
@@ -43,6 +51,316 @@ def _decls(term):
             out.add(x.decl().name())
         stack.extend(x.children())
     return out
+
+
+# ---------------------------------------------------------------------------------------------
+# _create_jobs: ONE fragment from the counter record to the job_parents loop (wave 4).  The two fragments of
+# contracts/create_jobs_frag.py treat `state` (fragment B) as an input and stop at fixed statements; a value computed
+# between them and stored in the jobs row (n_pending_parents, state) was out of reach.  Here everything from
+# `icr = inst_coll_resources[...]` to the `for parent_id in parent_ids` loop is executed, so whatever the code stores is
+# compared with len(parent_ids) / the Ready rule, however it is computed.
+
+FE = 'batch/batch/front_end/front_end.py'
+
+
+def _spec_get(eng, st, args, kw, node):
+    """spec.get(<key>): an arbitrary value of the shape the job schema gives that key (only guards of rejections read it)"""
+    key = args[0] if args and isinstance(args[0], str) else None
+    if key == 'unconfined':
+        return z3.Bool(pyvc.fresh_name('spec_unconfined'))
+    return z3.String(pyvc.fresh_name('spec_' + (key or 'value')))
+
+
+def create_jobs_contract():
+    F = create_jobs_frag
+    ens = [
+        ('ready-iff-first-update-and-no-parents', "(state == 'Ready') == (update_id == 1 and len(parent_ids) == 0)"),
+        ('otherwise-pending', "state == 'Ready' or (state == 'Pending' and time_ready is None)"),
+        ('jobs-row-appended', "len(jobs_args) == len(old_jobs_args) + 1 and forall(lambda i: implies(0 <= i < len(old_jobs_args), jobs_args[i] == old_jobs_args[i]))"),
+        ('the-stored-row-is-this-job-with-the-state-just-decided', "jobs_args[len(jobs_args) - 1][0] == batch_id and jobs_args[len(jobs_args) - 1][1] == job_id and jobs_args[len(jobs_args) - 1][2] == update_id and jobs_args[len(jobs_args) - 1][4] == state and jobs_args[len(jobs_args) - 1][6] == always_run"),
+        ('stored-ready-only-in-the-first-update-without-parents', "(jobs_args[len(jobs_args) - 1][4] == 'Ready') == (update_id == 1 and len(parent_ids) == 0) and (jobs_args[len(jobs_args) - 1][4] == 'Ready' or jobs_args[len(jobs_args) - 1][4] == 'Pending')"),
+        ('n_pending_parents-is-the-number-of-parents', "jobs_args[len(jobs_args) - 1][8] == len(parent_ids)"),
+        ('one-parent-row-per-parent-in-order', "len(job_parents_args) == len(old_job_parents_args) + len(parent_ids) and forall(lambda i: implies(0 <= i < len(parent_ids), job_parents_args[len(old_job_parents_args) + i][0] == batch_id and job_parents_args[len(old_job_parents_args) + i][1] == job_id and job_parents_args[len(old_job_parents_args) + i][2] == parent_ids[i]))"),
+        ('earlier-parent-rows-untouched', "forall(lambda i: implies(0 <= i < len(old_job_parents_args), job_parents_args[i] == old_job_parents_args[i]))"),
+    ]
+    inv = [
+        ('rows-so-far', "0 <= k and k <= len(parent_ids) and len(job_parents_args) == len(old_job_parents_args) + k"),
+        ('new-rows', "forall(lambda i: implies(0 <= i < k, job_parents_args[len(old_job_parents_args) + i][0] == batch_id and job_parents_args[len(old_job_parents_args) + i][1] == job_id and job_parents_args[len(old_job_parents_args) + i][2] == parent_ids[i]))"),
+        ('old-rows', "forall(lambda i: implies(0 <= i < len(old_job_parents_args), job_parents_args[i] == old_job_parents_args[i]))"),
+    ]
+
+    def setup(eng, st):
+        F._setup_a(eng, st)
+        st.env['old_jobs_args'] = st.env['jobs_args']
+        st.env['old_job_parents_args'] = st.env['job_parents_args']
+
+    fresh_u = lambda base: (lambda eng, st, args, kw, node: z3.Const(pyvc.fresh_name(base), pyvc.U))
+    return pyvc.Contract(
+        path=FE,
+        qualname='_create_jobs',
+        label='_create_jobs[dependency-rows]',
+        fragment=(r"re:^icr = inst_coll_resources\[", r"re:^for parent_id in "),
+        extra_inputs={
+            'batch_id': 'U', 'job_id': 'int', 'update_id': 'int', 'job_group_id': 'int', 'always_run': 'bool', 'cores_mcpu': 'int', 'user': 'str',
+            'parent_ids': 'List[int]', 'in_update_parent_ids': 'List[int]', 'absolute_parent_ids': 'List[int]', 'update_start_job_id': 'int',
+            'inst_coll_name': 'U', 'n_regions': 'int', 'regions_bits_rep': 'U', 'n_max_attempts': 'U',
+            'jobs_args': 'List[%s]' % F.JOBS_ROW, 'job_parents_args': 'List[Tuple[U, int, int]]', 'jobs_telemetry_args': 'List[Tuple[U, int, U]]',
+        },
+        setup=setup,
+        types={'state': 'str'},
+        consts={'inst_coll_resources': pyvc.SDotted('inst_coll_resources'), 'spec': pyvc.SDotted('spec')},
+        calls={
+            'time_msecs': fresh_u('now'),
+            'json.dumps': fresh_u('json'),
+            'spec.get': _spec_get,
+            'spec_writer.add': lambda eng, st, args, kw, node: None,
+            'batch_format_version.db_spec': fresh_u('db_spec'),
+        },
+        raises={'HTTPBadRequest': True},
+        loops={'re:^for parent_id in ': pyvc.LoopSpec(index='k', invariants=inv)},
+        ensures=ens,
+        canaries=[('always-pending', "state == 'Pending'"), ('no-parent-rows', "len(job_parents_args) == len(old_job_parents_args)")],
+    )
+
+
+# the same statements run natively (real AST of the scratch/real repository, /venv/bin/python): enumerated inputs, the rows
+# handed to the INSERTs are compared with the rule of the property
+REPLAY_CREATE = r'''
+import sys, json, os, ast, re
+src = open(os.path.join(os.environ['VERIF_REPO'], 'batch/batch/front_end/front_end.py')).read()
+fn = [n for n in ast.walk(ast.parse(src)) if isinstance(n, ast.AsyncFunctionDef) and n.name == '_create_jobs'][0]
+loop = [n for n in fn.body if isinstance(n, ast.For) and ast.unparse(n.iter) == 'job_specs'][0]
+stmts = []; take = False
+for st in loop.body:
+    t = ast.unparse(st)
+    if re.match(r'^icr = inst_coll_resources\[', t): take = True
+    if take:
+        stmts.append(st)
+        if isinstance(st, ast.For) and ast.unparse(st.target) == 'parent_id': break
+if not stmts or not isinstance(stmts[-1], ast.For):
+    print(json.dumps({'confirmed': False, 'error': 'fragment not found'})); sys.exit(0)
+class J:
+    @staticmethod
+    def dumps(x): return 'json'
+class W:
+    def add(self, x): pass
+class V:
+    def db_spec(self, s): return {}
+class BadRequest(Exception): pass
+class web:
+    @staticmethod
+    def HTTPBadRequest(reason=None): return BadRequest(reason)
+import collections
+res = {'confirmed': False, 'tried': 0}
+for update_id, start in ((1, 1), (2, 5), (3, 9)):
+    for absolute in ([], [1], [1, 2]):
+        for in_update in ([], [1], [1, 2]):
+          for always_run in (False, True):
+            if update_id == 1 and absolute: continue
+            parent_ids = list(absolute) + [start + p - 1 for p in in_update]
+            icrs = collections.defaultdict(lambda: {'n_jobs': 0, 'n_ready_jobs': 0, 'ready_cores_mcpu': 0, 'n_ready_cancellable_jobs': 0, 'ready_cancellable_cores_mcpu': 0})
+            env = {'batch_id': 7, 'job_id': start + 3, 'update_id': update_id, 'job_group_id': 0, 'always_run': always_run, 'cores_mcpu': 1000, 'user': 'u', 'parent_ids': list(parent_ids),
+                   'in_update_parent_ids': list(in_update), 'absolute_parent_ids': list(absolute), 'update_start_job_id': start, 'inst_coll_name': 'standard', 'n_regions': None,
+                   'regions_bits_rep': None, 'n_max_attempts': 20, 'jobs_args': [], 'job_parents_args': [], 'jobs_telemetry_args': [], 'json': J, 'spec': {}, 'spec_writer': W(),
+                   'batch_format_version': V(), 'web': web, 'inst_coll_resources': icrs, 'time_msecs': lambda: 1}
+            exec(compile(ast.Module(body=stmts, type_ignores=[]), 'front_end-fragment', 'exec'), env)
+            res['tried'] += 1
+            rows = env['job_parents_args']; jr = env['jobs_args'][-1]
+            problems = []
+            if rows != [(7, start + 3, p) for p in parent_ids]: problems.append('job_parents rows %r for parents %r' % (rows, parent_ids))
+            if jr[8] != len(parent_ids): problems.append('n_pending_parents stored as %r for %d parents (update %d): a parent of an earlier update that is still running is not waited for / counted twice' % (jr[8], len(parent_ids), update_id))
+            if (jr[4] == 'Ready') != (update_id == 1 and not parent_ids) or jr[4] not in ('Ready', 'Pending'): problems.append('state %r for update %d with parents %r' % (jr[4], update_id, parent_ids))
+            if problems:
+                res = {'confirmed': True, 'what': '_create_jobs row fragment', 'input': {'update_id': update_id, 'update_start_job_id': start, 'absolute_parent_ids': absolute, 'in_update_parent_ids': in_update, 'always_run': always_run}, 'problems': problems}
+                print(json.dumps(res)); sys.exit(0)
+print(json.dumps(res))
+'''
+
+
+def _create_jobs(ctx):
+    eng = pyvc.Engine(ctx, create_jobs_contract())
+    create_jobs_frag._subscript_icr(eng)
+    eng.replayer = lambda model, obl: core.run_native(REPLAY_CREATE, {})
+    _guarded(eng)
+    ctx.assume('_create_jobs is verified on one fragment of its per-job loop body (counter record .. job_parents loop); the variables it reads are arbitrary symbolic inputs, spec.get() results are arbitrary, everything outside the fragment is dropped')
+
+
+def _guarded(eng):
+    """run a pyvc engine; an internal exception of the executor on code it was not written for (an unbound name reaching a
+    z3 cast, ...) is `contracts no longer apply` (undecided -> native witness search), not a checker crash"""
+    try:
+        eng.run()
+    except (core.Undecided, core.CheckerBug):
+        raise
+    except Exception as e:  # noqa: BLE001
+        raise core.Undecided('%s: the symbolic executor failed on this code (%s: %s)' % (eng.label, type(e).__name__, str(e)[:120]))
+
+
+# ---------------------------------------------------------------------------------------------
+# which jobs are the parents: the path of a parent id from the request to the job_parents row (wave 4)
+#   validate.handle_job_backwards_compatibility: the legacy key `parent_ids` (the job API before updates existed, where a job id
+#   was its id in the batch) names BATCH job ids: it must arrive in `absolute_parent_ids`, never in `in_update_parent_ids`
+#   (which _create_jobs shifts by the start of the update - the dependency would be recorded on another job, and the job
+#   would not wait for the parent it named);  validate_and_clean_jobs applies it to every job;  _create_jobs reads exactly
+#   these two keys and parent_ids = absolute ids followed by the shifted in-update ids.
+
+VAL = 'batch/batch/front_end/validate.py'
+
+
+def _same_entry(key):
+    return "('%s' in job) == ('%s' in old(job)) and implies('%s' in job, job['%s'] == old(job)['%s'])" % ((key,) * 5)
+
+
+def compat_contract():
+    def pop(eng, st, args, kw, node):
+        """dict.pop(key) on the job dict: the value under the key (KeyError obligation if it may be absent), key removed"""
+        recv = args[0]
+        if not isinstance(recv, pyvc.SMap) or len(args) != 2 or kw:
+            raise core.Undecided('L%d: .pop() on %r' % (node.lineno, recv))
+        v = eng.index(recv, args[1], st, node)
+        eng.assign(node.func.value, pyvc.SMap(z3.Store(recv.has, pyvc.to_z3(args[1], recv.kt), False), recv.val, recv.size - 1, recv.kt, recv.vt), st)
+        return v
+
+    return pyvc.Contract(
+        path=VAL,
+        qualname='handle_job_backwards_compatibility',
+        types={'job': 'Map[str, U]'},
+        calls={'.pop': pop},
+        consts={'ROOT_JOB_GROUP_ID': z3.Const('ROOT_JOB_GROUP_ID', pyvc.U)},
+        ensures=[
+            ('legacy-parent_ids-are-job-ids-of-the-batch-and-stay-absolute', "implies('parent_ids' in old(job), 'absolute_parent_ids' in job and job['absolute_parent_ids'] == old(job)['parent_ids'])"),
+            ('legacy-key-is-consumed', "'parent_ids' not in job"),
+            ('in-update-parent-ids-are-never-rewritten', _same_entry('in_update_parent_ids')),
+            ('absolute-parent-ids-untouched-without-the-legacy-key', "implies('parent_ids' not in old(job), %s)" % _same_entry('absolute_parent_ids')),
+            ('the-job-id-is-not-rewritten', _same_entry('job_id')),
+        ],
+        canaries=[('never-any-absolute-parents', "'absolute_parent_ids' not in job")],
+    )
+
+
+def _opaque_items(eng):
+    """values of the job dict are opaque (U): Python constants stored into it are boxed, and a nested dict (job['process']) is
+    an opaque object whose items are uninterpreted - its contents are no part of what is claimed here"""
+    U = pyvc.U
+    orig_store, orig_index, orig_contains = eng.store, eng.index, eng.contains
+
+    def box(v):
+        if isinstance(v, z3.ExprRef) and v.sort() == U:
+            return v
+        if isinstance(v, bool) or v is None:
+            return z3.Const('py_%s' % v, U)
+        return z3.Const(pyvc.fresh_name('boxed'), U)
+
+    def store(cont, idx, v, st, node):
+        if isinstance(cont, z3.ExprRef) and cont.sort() == U:
+            return cont
+        if isinstance(cont, pyvc.SMap) and cont.vt == 'U':
+            v = box(v)
+        return orig_store(cont, idx, v, st, node)
+
+    def index(cont, idx, st, node=None):
+        if isinstance(cont, z3.ExprRef) and cont.sort() == U and isinstance(idx, str):
+            return eng.uf('item_' + idx, ['U'], 'U')(cont)
+        return orig_index(cont, idx, st, node)
+
+    def contains(cont, x, st):
+        if isinstance(cont, z3.ExprRef) and cont.sort() == U and isinstance(x, str):
+            return eng.uf('has_item_' + x, ['U'], 'bool')(cont)
+        return orig_contains(cont, x, st)
+
+    eng.store, eng.index, eng.contains = store, index, contains
+
+
+REPLAY_COMPAT = r'''
+import sys, json, os, ast
+src = open(os.path.join(os.environ['VERIF_REPO'], 'batch/batch/front_end/validate.py')).read()
+fn = [n for n in ast.parse(src).body if isinstance(n, ast.FunctionDef) and n.name == 'handle_job_backwards_compatibility'][0]
+env = {'ROOT_JOB_GROUP_ID': 0}
+exec(compile(ast.Module(body=[fn], type_ignores=[]), 'validate-fragment', 'exec'), env)
+f = env['handle_job_backwards_compatibility']
+res = {'confirmed': False}
+for job in ({'job_id': 3, 'parent_ids': [1]}, {'job_id': 3, 'parent_ids': [1], 'absolute_parent_ids': [2]}, {'job_id': 3, 'parent_ids': [1, 2], 'in_update_parent_ids': [1]}, {'job_id': 2, 'absolute_parent_ids': [1]}, {'job_id': 2, 'in_update_parent_ids': [1]},
+            {'job_id': 2, 'parent_ids': [], 'process': {'type': 'jvm'}}, {'job_id': 1}):
+    before = json.loads(json.dumps(job))
+    f(job)
+    problems = []
+    if 'parent_ids' in before and job.get('absolute_parent_ids') != before['parent_ids']:
+        problems.append('legacy parent_ids %r (job ids of the batch) arrive as absolute_parent_ids=%r in_update_parent_ids=%r: in update u > 1 _create_jobs shifts in-update ids by the start of the update, so the job waits for job start+p-1 instead of job p' % (before['parent_ids'], job.get('absolute_parent_ids'), job.get('in_update_parent_ids')))
+    if 'parent_ids' in job: problems.append('legacy key left in the spec')
+    if job.get('in_update_parent_ids') != before.get('in_update_parent_ids'): problems.append('in_update_parent_ids rewritten: %r -> %r' % (before.get('in_update_parent_ids'), job.get('in_update_parent_ids')))
+    if 'parent_ids' not in before and job.get('absolute_parent_ids') != before.get('absolute_parent_ids'): problems.append('absolute_parent_ids rewritten')
+    if job.get('job_id') != before.get('job_id'): problems.append('job_id rewritten')
+    if problems:
+        res = {'confirmed': True, 'what': 'validate.handle_job_backwards_compatibility', 'input': before, 'result': job, 'problems': problems}; break
+print(json.dumps(res, default=str))
+'''
+
+
+def parent_ids_contract():
+    return pyvc.Contract(
+        path=FE,
+        qualname='_create_jobs',
+        label='_create_jobs[parents-of-all-updates]',
+        fragment=(r"re:^parent_ids = ", 1),
+        extra_inputs={'absolute_parent_ids': 'List[int]', 'in_update_parent_ids': 'List[int]', 'update_start_job_id': 'int', 'job_id': 'int', 'batch_id': 'U'},
+        ensures=[
+            ('parents-are-the-absolute-ids-then-the-in-update-ids-shifted-by-the-start-of-the-update', "len(parent_ids) == len(absolute_parent_ids) + len(in_update_parent_ids) and forall(lambda i: implies(0 <= i < len(absolute_parent_ids), parent_ids[i] == absolute_parent_ids[i])) and forall(lambda i: implies(0 <= i < len(in_update_parent_ids), parent_ids[len(absolute_parent_ids) + i] == update_start_job_id + in_update_parent_ids[i] - 1))"),
+        ],
+        canaries=[('no-parents-ever', 'len(parent_ids) == 0')],
+        consts={'spec': pyvc.SDotted('spec')},
+    )
+
+
+def _parent_id_path(ctx):
+    import ast as pyast
+
+    eng = pyvc.Engine(ctx, compat_contract())
+    _opaque_items(eng)
+    eng.replayer = lambda model, obl: core.run_native(REPLAY_COMPAT, {})
+    _guarded(eng)
+    # every job of a bunch goes through it: a statement of the per-job loop of validate_and_clean_jobs, applied to the loop's job
+    vtree = pyast.parse(core.read_repo(VAL))
+    vfn = [n for n in vtree.body if isinstance(n, pyast.FunctionDef) and n.name == 'validate_and_clean_jobs']
+    ok, detail = False, 'validate_and_clean_jobs not found'
+    if vfn:
+        loops = [n for n in vfn[0].body if isinstance(n, pyast.For) and pyast.unparse(n.iter) in ('enumerate(jobs)', 'jobs')]
+        detail = '%d loops over jobs' % len(loops)
+        if len(loops) == 1:
+            tgt = loops[0].target
+            var = pyast.unparse(tgt.elts[-1] if isinstance(tgt, pyast.Tuple) else tgt)
+            body = loops[0].body
+            calls = [st for st in body if isinstance(st, pyast.Expr) and isinstance(st.value, pyast.Call) and pyast.unparse(st.value) == 'handle_job_backwards_compatibility(%s)' % var]
+            after = body[body.index(calls[0]) + 1:] if calls else body
+            later_writes = [pyast.unparse(n)[:60] for st in after for n in pyast.walk(st) if "_parent_ids'" in pyast.unparse(n) and ((isinstance(n, pyast.Subscript) and isinstance(n.ctx, (pyast.Store, pyast.Del))) or (isinstance(n, pyast.Call) and '.pop(' in pyast.unparse(n.func) + '('))]
+            ok = len(calls) == 1 and not later_writes
+            detail = 'unconditional calls on the loop variable: %d; later writes of parent-id keys: %r' % (len(calls), later_writes)
+    ctx.add(core.decided('validate_and_clean_jobs/every-job-passes-through-the-compatibility-mapping-once', ok, detail, kind='scan'))
+    ctx.under_contract(VAL, 'validate_and_clean_jobs (compatibility call)')
+    # _create_jobs reads the two keys under their own names (the key text IS the fact) ...
+    ftree = pyast.parse(core.read_repo(FE))
+    fn = [n for n in pyast.walk(ftree) if isinstance(n, pyast.AsyncFunctionDef) and n.name == '_create_jobs'][0]
+    reads = {}
+    for n in pyast.walk(fn):
+        if isinstance(n, pyast.Assign) and len(n.targets) == 1 and isinstance(n.targets[0], pyast.Name) and n.targets[0].id in ('absolute_parent_ids', 'in_update_parent_ids'):
+            reads.setdefault(n.targets[0].id, []).append(pyast.unparse(n.value))
+    want = {k: ["spec.pop('%s', [])" % k] for k in ('absolute_parent_ids', 'in_update_parent_ids')}
+    ctx.add(core.decided('_create_jobs/parent-id-lists-are-read-from-the-spec-keys-of-the-same-name', reads == want, repr(reads), kind='scan'))
+    # ... and combines them into the parents of the job
+    eng = pyvc.Engine(ctx, parent_ids_contract())
+    _guarded(eng)
+
+
+def _canceller(ctx, ex=None):
+    canceller_sel.add(ctx, ex, run=_guarded)
+
+
+def native_witness(ctx):
+    """used by vc.check only when the contracts cannot be applied to a changed source: failing inputs replayed on the real code"""
+    for script in (REPLAY_CREATE, REPLAY_COMPAT):
+        r = core.run_native(script, {})
+        if isinstance(r, dict) and r.get('confirmed'):
+            return r
+    return {'confirmed': False}
 
 
 def build(ctx):
@@ -165,9 +483,14 @@ def build(ctx):
         reached.append(z3.And(*pc_e, *pre, aff))
     ctx.add(core.satisfiable('%s/vacuity/recompute-reached' % name, z3.Or(*reached) if reached else z3.BoolVal(False)))
     SP.engine_obligations(ctx, ex)
+    # the atomicity assumed below rests on row locks: a removed FOR UPDATE in the two routines is a failed obligation here too
+    SP.lock_discipline(ctx, ex, ['mark_job_complete', 'commit_batch_update'])
 
     # ---------------- _create_jobs (Python)
-    create_jobs_frag.add(ctx, a=['ready-iff-first-update-and-no-parents', 'otherwise-pending'], b=['jobs-row-appended', 'n_pending_parents-is-the-number-of-parents', 'one-parent-row-per-parent-in-order', 'earlier-parent-rows-untouched'])
+    _create_jobs(ctx)
+    _parent_id_path(ctx)
+    # ---------------- the canceller's selection queries (embedded SQL)
+    _canceller(ctx, ex)
     ctx.assume('each procedure call is atomic (serialisable isolation); MySQL NULL/boolean semantics as encoded in vc/sqlvc.py')
     ctx.assume('meta-lemmas L1 (sum localisation: one parent flips non-terminal -> terminal, the edge is unique by the primary key of job_parents) and L2 (pointwise equal predicates and summands give equal sums) lift the pointwise obligations to invariant N')
     ctx.assume('SUM over an aggregated LEFT-JOINed parent row whose jobs row is missing contributes 0 (state NULL); existence of parent rows is C08')
